@@ -165,7 +165,18 @@ def run(facts, rep, tier):
     if jn is None: rep.anchor_missing(f'{TH}::join', 'not found')
     else:
         joins = [n for n in jn.nodes() if n.is_call('std::thread::join') and n.n('object') is not None and n.n('object').is_field('m_thread', TH)]
-        rep.check(len(joins) == 1, 'TH.2', 'join() joins m_thread', jn.shortloc(), 'join() does not join the stored thread', key='TH.2|join')
+        if len(joins) != 1: rep.check(False, 'TH.2', 'join() joins m_thread', jn.shortloc(), 'join() does not join the stored thread', key='TH.2|join')
+        else:
+            pos = jn.cfg.position(joins[0])
+            if pos is not None and pos[0] in jn.cfg.pdom.get(jn.cfg.entry, ()): rep.ok('TH.2', 'join() joins m_thread on every path', joins[0].shortloc())
+            else:
+                # a path that returns without joining: acceptable only if it is taken when the completion state says the callable has returned
+                # (TH.2 orders that write after the call; a Thread object that is started a second time is outside what C20 quantifies over)
+                conds = [c_ for b_ in jn.cfg.blocks.values() if b_.cond is not None for c_ in [b_.cond]]
+                only_state = bool(conds) and all(all((not y.is_field(cls=TH)) or y.name in state_fields or y.name == 'm_thread' for y in c_.walk()) and any(y.is_field(cls=TH) and y.name in state_fields for y in c_.walk()) or
+                                                 all((not y.is_field(cls=TH)) or y.name == 'm_thread' for y in c_.walk()) for c_ in conds)
+                if only_state: rep.ok('TH.2', f'join() returns without joining only on a path guarded by the completion state {state_fields} (the callable has returned by then)', joins[0].shortloc())
+                else: rep.inconclusive('TH.2', 'join() joins m_thread on every path', joins[0].shortloc(), 'join() has a path that does not join the thread, under a condition that is not the completion state')
     # TH.4
     for sf in state_fields:
         fld = facts.field(TH, sf)
@@ -176,4 +187,23 @@ def run(facts, rep, tier):
     for c in ctors:
         calls = [n for n in c.nodes() if n.k == 'call' and n.callee_in_root and strip_targs(n.calleeq or '') == f'{TH}::start']
         rep.check(len(calls) == 1, 'TH.2', f'{c.name[:100]}: forwards to start()', c.shortloc(), 'constructor does not start the thread exactly once', key='TH.2|ctor', fn=c.name)
+    # TH.1 at the call sites: what start() copies into the closure must itself own the callable.  A std::reference_wrapper (std::ref / std::cref)
+    # to an object with automatic storage of the caller is a reference in disguise: the closure's copy refers to a dead object once the caller returns
+    for g in facts.fns:
+        if g.d.get('lambda'): continue
+        for n in g.nodes():
+            if n.k != 'call' or not n.callee_in_root or strip_targs(n.calleeq or '') != f'{TH}::start': continue
+            for a in n.ns('args'):
+                x = a
+                while x is not None and x.k in ('cast', 'paren', 'materialize', 'bindtemp') and x.n('sub') is not None: x = x.n('sub')
+                if x is None or not ((x.k == 'call' and strip_targs(x.calleeq or '') in ('std::ref', 'std::cref')) or (x.k == 'construct' and (x.d.get('class') or '').startswith('std::reference_wrapper'))): continue
+                inner = [y for y in x.ns('args') if y is not None]
+                t0 = inner[0] if inner else None
+                while t0 is not None and t0.k in ('cast', 'paren') and t0.n('sub') is not None: t0 = t0.n('sub')
+                inst_ = f'{g.name[:90]}: what is handed to start() owns the callable'
+                if t0 is not None and t0.k == 'ref' and t0.dk in ('param', 'local') and not (t0.d.get('decltype') or t0.type or '').rstrip().endswith('&'):
+                    rep.violation('TH.1', inst_, x.shortloc(), f'start() is given std::ref({t0.name}): the closure copies only the reference_wrapper, which refers to `{t0.name}`, a {"by-value parameter" if t0.dk == "param" else "local"} of {g.name.split("::")[-1][:40]} '
+                                  'that is destroyed when that function returns — the new thread, however late it runs, calls through a dangling reference', key='TH.1|ref-wrapper', fn=g.name)
+                else:
+                    rep.inconclusive('TH.1', inst_, x.shortloc(), f'start() is given a std::reference_wrapper to `{t0.text()[:40] if t0 is not None else "?"}`: whether its referent outlives the thread is not followed')
     rep.count('start_instantiations', len(inst)); rep.count('thread_bodies', bodies)
